@@ -177,6 +177,11 @@ func mergeSetup(prop string) func(r *kvh.Runner) {
 // inspectMergeDir decodes the merge output between Merge() and the adopting restart.
 func (o *mergeObs) inspectMergeDir(r *kvh.Runner) *kvh.Fail {
 	mdir := r.Dir + "-merge"
+	// Merge returned nil: "or after the adopting restart the directory holds only the merged live records" needs a
+	// finished merge to adopt - a success that leaves no marker behind reclaims nothing
+	if fi, err := os.Stat(datafile.GetFileName(mdir, 0, datafile.MergeFinishedFileSuffix)); err != nil || fi.Size() == 0 {
+		return &kvh.Fail{Sig: "merge-ok-without-finished-merge", Msg: fmt.Sprintf("Merge() returned nil but left no merge-finished marker in %s (%v): nothing will be adopted, the garbage stays", filepath.Base(mdir), err)}
+	}
 	var scans []*kvh.FileScan
 	var err error
 	type hintEnt struct {
